@@ -10,7 +10,8 @@ if [ "$1" = "--revert" ]; then
   (cd /repo && git diff "$2" "$2~1" ) | (cd "$SCR" && patch -p1 -s) || { echo "PATCH-FAILED"; exit 3; }
   shift 2
 else
-  (cd "$SCR" && patch -p1 -s < "$1") || { echo "PATCH-FAILED"; exit 3; }
+  PATCH="$(realpath "$1")"
+  (cd "$SCR" && patch -p1 -s < "$PATCH") || { echo "PATCH-FAILED"; exit 3; }
   shift
 fi
 PROP="$1"; shift
